@@ -175,11 +175,11 @@ Proof.
   intros p Hne H4 Hlo Hhi Hmod. rewrite forallb_forall in Hall.
   specialize (Hall p). rewrite in_seq in Hall. specialize (Hall ltac:(lia)).
   apply orb_true_iff in Hall. destruct Hall as [Hall|Hall]; [|apply N.ltb_lt; exact Hall].
+  apply orb_true_iff in Hall. destruct Hall as [Hall|Hall]; [|apply negb_true_iff, Nat.eqb_neq in Hall; lia].
+  apply orb_true_iff in Hall. destruct Hall as [Hall|Hall]; [|apply Nat.leb_le in Hall; lia].
   apply orb_true_iff in Hall. destruct Hall as [Hall|Hall].
-  - apply orb_true_iff in Hall. destruct Hall as [Hall|Hall].
-    + apply Nat.eqb_eq in Hall. lia.
-    + apply Nat.ltb_lt in Hall. lia.
-  - apply negb_true_iff, Nat.eqb_neq in Hall. lia.
+  - apply Nat.eqb_eq in Hall. lia.
+  - apply Nat.ltb_lt in Hall. lia.
 Qed.
 
 (* ------------------------------------------------------------------ under valid parameters *)
